@@ -636,7 +636,10 @@ struct Extractor {
             }
             if (const Stmt *TC = B->getTerminatorCondition()) BOj["tc"] = idOf(TC);
             if (B->hasNoReturnElement()) BOj["noreturn"] = true;
-            if (const Stmt *Lb = B->getLabel()) BOj["label"] = Lb->getStmtClassName();
+            if (const Stmt *Lb = B->getLabel()) {
+                BOj["label"] = Lb->getStmtClassName();
+                BOj["label_id"] = idOf(Lb);
+            }
             if (const Stmt *LT = B->getLoopTarget()) BOj["looptarget"] = idOf(LT);
             Blocks.push_back(std::move(BOj));
         }
